@@ -10,7 +10,7 @@ import (
 func init() { registry["C05"] = checkC05 }
 
 func checkC05(c *Check) {
-	c.Explanation = "Pairing of market/deployment records with escrow records, decided per function on all nil-error paths and for all call sites: (R1) bid created <=> bid-deposit account opened for that bid's id by the provider; bid closed/lost => the same bid's account closed; lease created only after its payment stream was opened for (deployment account, lease payment id) of the same bid; every lease close outside the escrow hooks is paired with PaymentClose of ids derived from that lease; deployments are closed only from the escrow account-closed hook and MsgCloseDeployment passes through AccountClose of the deployment's account; deployment created <=> deployment account opened; hooks are registered in the app; (R2) id mapping is shape-bijective: scope constants agree between mapping and inverse, the payment id's field order agrees with its parser, integer parse widths are not narrower than the id fields they fill; (R3) dropped escrow errors are listed (informational); (R4) closing cascades are complete: the settle core hands every open payment to its caller and the account-closed hook closes an active deployment on every path (shared with C03-R2 / C04-R2)."
+	c.Explanation = "Pairing of market/deployment records with escrow records, decided per function on all nil-error paths and for all call sites: (R1) bid created <=> bid-deposit account opened for that bid's id by the provider; bid closed/lost => the same bid's account closed; lease created only after its payment stream was opened for (deployment account, lease payment id) of the same bid; every lease close outside the escrow hooks is paired with PaymentClose of ids derived from that lease; deployments are closed only from the escrow account-closed hook and MsgCloseDeployment passes through AccountClose of the deployment's account; deployment created <=> deployment account opened; hooks are registered in the app; (R2) id mapping is shape-bijective: scope constants agree between mapping and inverse, the payment id's field order agrees with its parser, integer parse widths are not narrower than the id fields they fill; (R3) dropped escrow errors are listed (informational); (R4) closing cascades are complete: the settle core hands every open payment to its caller and the account-closed hook closes an active deployment on every path (shared with C03-R2 / C04-R2). The error of AccountCreate in CreateDeployment is honoured on every nil-error return; the group cascade closes an existing lease and its payment."
 	c.NotDecided = "the iff over all histories (needs the global invariant); the escrow-side half (a close that silently does not persist) is C03"
 	l := c.L
 
@@ -37,7 +37,25 @@ func checkC05(c *Check) {
 					}
 				}
 			}
-			c.Ob("R1", "CreateBid: failure to open the account fails the transaction", ac[0].Pos(), errProp && okEdgeReturnOnly(fn, ac[0].(*ssa.Call)), "AccountCreate error is not propagated: a bid could exist without a deposit")
+			okOnly := okEdgeReturnOnly(fn, ac[0].(*ssa.Call))
+			if acc := ac[0].(*ssa.Call); acc.Parent() != fn && acc.Parent().Parent() == nil && isNewFunc(acc.Parent()) {
+				// the account is opened inside a new helper that hands the error back: the handler must fail on it
+				h := acc.Parent()
+				handsBack := true
+				for _, b := range h.Blocks {
+					if r, ok := b.Instrs[len(b.Instrs)-1].(*ssa.Return); ok && reachableFrom(acc, r) {
+						res := r.Results[len(r.Results)-1]
+						if cv, _ := callOf(res); cv != acc && !(okEdgeAt(b, acc) || definitelyNonNilErr(res, b, map[ssa.Value]bool{})) {
+							handsBack = false
+						}
+					}
+				}
+				if hc, isHC := liftTo(fn, acc).(*ssa.Call); isHC && handsBack {
+					errProp = true
+					okOnly = okEdgeReturnOnly(fn, hc)
+				}
+			}
+			c.Ob("R1", "CreateBid: failure to open the account fails the transaction", ac[0].Pos(), errProp && okOnly, "AccountCreate error is not propagated: a bid could exist without a deposit")
 		}
 	}
 	// ---- R1.b bid closed/lost => account closed
@@ -57,20 +75,40 @@ func checkC05(c *Check) {
 				ok := true
 				nret := 0
 				bidExpr := sa.recExpr
-				for _, r := range successReturns(sa.fn) {
-					if !reachableFrom(sa.st, r) {
-						continue
+				closesIt := func(in ssa.Instruction) bool {
+					call, isC := in.(ssa.CallInstruction)
+					if !isC || !callIs(call, "AccountClose", "") {
+						return false
 					}
-					nret++
-					if !mustPassFrom(sa.fn, sa.st, r, func(in ssa.Instruction) bool {
-						call, isC := in.(ssa.CallInstruction)
-						if !isC || !callIs(call, "AccountClose", "") {
-							return false
-						}
-						a := userArgs(call)
+					a := userArgs(call)
+					if in.Parent() == sa.fn {
 						return Sym(a[0]) == "types.EscrowAccountForBid(types.Bid.ID("+bidExpr+"))"
-					}) {
-						ok = false
+					}
+					// the close sits in another new helper: same record once the helpers are seen through
+					if sa.param == nil {
+						return false
+					}
+					e1, ok1 := a[0].(*ssa.Call)
+					if !ok1 || calleeFull(e1) != akash+"/x/market/types.EscrowAccountForBid" || len(e1.Call.Args) != 1 {
+						return false
+					}
+					e2, ok2 := e1.Call.Args[0].(*ssa.Call)
+					if !ok2 || calleeMethod(e2) != "ID" || len(e2.Call.Args) != 1 {
+						return false
+					}
+					return recordRoot(e2.Call.Args[0]) == recordRoot(sa.param)
+				}
+				if isNewFunc(sa.fn) {
+					ok, nret = mustFollowDeep(sa.fn, sa.st, closesIt, 0)
+				} else {
+					for _, r := range successReturns(sa.fn) {
+						if !reachableFrom(sa.st, r) {
+							continue
+						}
+						nret++
+						if !mustPassFrom(sa.fn, sa.st, r, closesIt) {
+							ok = false
+						}
 					}
 				}
 				c.Ob("R1", "bid -> closed in "+fnName(sa.fn)+" closes that bid's escrow account", sa.st.Pos(), ok && nret > 0, "bid is marked closed but its deposit account is not closed on the same path (deposit never returned)")
@@ -129,6 +167,8 @@ func checkC05(c *Check) {
 			}
 		}
 	}
+	// ---- R1.c' the group cascade closes the lease of every closed bid together with its payment stream
+	c.groupCascade("R1")
 	// ---- R1.d lease closed outside hooks => PaymentClose of that lease
 	{
 		olc := l.Func("x/market/keeper", "Keeper", "OnLeaseClosed")
@@ -159,6 +199,29 @@ func checkC05(c *Check) {
 					if all {
 						ok = true
 					}
+				}
+			}
+			if !ok && isNewFunc(caller) && caller.Parent() == nil {
+				// the close sits in a new helper: the payment may be closed by a sibling helper of the same handler, for
+				// the same lease once the helpers are seen through
+				same := func(in ssa.Instruction) bool {
+					c2, isC := in.(ssa.CallInstruction)
+					if !isC || !callIs(c2, "PaymentClose", "") {
+						return false
+					}
+					a := userArgs(c2)
+					e1, ok1 := a[1].(*ssa.Call)
+					if !ok1 || !strings.HasSuffix(calleeFull(e1), "types.EscrowPaymentForLease") || len(e1.Call.Args) != 1 {
+						return false
+					}
+					e2, ok2 := e1.Call.Args[0].(*ssa.Call)
+					if !ok2 || calleeMethod(e2) != "ID" || len(e2.Call.Args) != 1 {
+						return false
+					}
+					return recordRoot(e2.Call.Args[0]) == recordRoot(lease) && strings.HasPrefix(Sym(a[0]), "types.EscrowAccountForDeployment(")
+				}
+				if ok2, n2 := mustFollowDeep(caller, call, same, 0); ok2 && n2 > 0 {
+					ok = true
 				}
 			}
 			c.Ob("R1", "lease -> closed in "+fnName(caller)+" is paired with PaymentClose of that lease's payment", call.Pos(), ok, "lease is closed but its payment stream is not closed with ids derived from the same lease (tenant keeps paying)")
@@ -220,6 +283,9 @@ func checkC05(c *Check) {
 			c.Ob("R1", "CreateDeployment: account id is the new deployment's escrow id", call.Pos(), strings.HasPrefix(Sym(a[0]), "types.EscrowAccountForDeployment(types.Deployment.ID(") && idFromMsg, short(Sym(a[0])))
 			c.Ob("R1", "CreateDeployment: depositor is the deployment owner", call.Pos(), strings.HasPrefix(Sym(a[1]), "types.AccAddressFromBech32(") && strings.Contains(Sym(a[1]), ".Owner)#0"), short(Sym(a[1])))
 			c.Ob("R1", "CreateDeployment: deposit is the message's deposit", call.Pos(), Sym(a[2]) == "*p:msg.Deposit", Sym(a[2]))
+			if cc, isCall := call.(*ssa.Call); isCall && cc.Parent() == fn {
+				c.Ob("R1", "CreateDeployment: failure to open the escrow account fails the transaction", call.Pos(), errHonoured(fn, cc), "a nil-error return is reachable after AccountCreate without its error having been looked at (or handed back): the deployment is committed active with open orders and no escrow account")
+			}
 		}
 		wl := l.msgServerMethod("x/market/handler", "WithdrawLease")
 		for _, call := range c.requireOnPaths("R1", "WithdrawLease: payment withdrawn", wl, successReturns(wl), func(x ssa.CallInstruction) bool { return callIs(x, "PaymentWithdraw", "") }, "") {
@@ -322,7 +388,11 @@ func (c *Check) idMapping() {
 	for _, r := range successReturns(st) {
 		ss = Sym(r.Results[0])
 	}
-	c.Ob("R2", "DeploymentID.String() = owner/dseq", st.Pos(), strings.HasPrefix(ss, "fmt.Sprintf(\"%s/%d\", [p:id.Owner, p:id.DSeq])"), ss)
+	if tpl, okT := canonString(st, 0); okT {
+		c.Ob("R2", "DeploymentID.String() = owner/dseq", st.Pos(), tpl == "<Owner>/<DSeq>", "rendered as "+tpl)
+	} else {
+		c.Info("R2", "DeploymentID.String(): form not recognised, owner/dseq not decided", st.Pos(), ss)
+	}
 	pp := l.Func("x/deployment/types", "", "ParseDeploymentPath")
 	ps := ""
 	for _, r := range successReturns(pp) {
@@ -445,4 +515,42 @@ func (c *Check) parseWidthRule(rule string) {
 	if n < 3 {
 		c.Fail("%s-%s parse width lost instances", c.ID, rule)
 	}
+}
+
+// errHonoured: every return of fn that may report success and is reachable from call either lies on the call's
+// ok-edge or hands the call's own error back on the ways that come from the call.
+func errHonoured(fn *ssa.Function, call *ssa.Call) bool {
+	ei := errResultIndex(fn)
+	if ei < 0 {
+		return false
+	}
+	for _, r := range successReturns(fn) {
+		if !reachableFrom(call, r) || okEdgeAt(r.Block(), call) {
+			continue
+		}
+		res := r.Results[ei]
+		if cv, _ := callOf(res); cv == call {
+			continue
+		}
+		ph, isPhi := res.(*ssa.Phi)
+		if !isPhi || ph.Block() != r.Block() {
+			return false
+		}
+		for k, e := range ph.Edges {
+			p := r.Block().Preds[k]
+			if p != call.Block() && !blockReachesAvoiding(call.Block(), p, nil) {
+				continue // this way into the return does not come from the call
+			}
+			if cv, _ := callOf(e); cv == call {
+				// the call's own error, provided the call is the last thing that produced it on this edge: the edge's
+				// value being the call itself says so
+				continue
+			}
+			if okEdgeAt(p, call) || definitelyNonNilErr(e, p, map[ssa.Value]bool{}) {
+				continue
+			}
+			return false
+		}
+	}
+	return true
 }
